@@ -21,6 +21,9 @@ type DriverMethod struct {
 	Plan   *Plan
 	Chosen map[*Leaf]int // index of the alternative the tool realised (-1 = loose)
 	Skip   string
+	// AllowNil: run even nil-risk methods with nil pointers (only the replay archive of the open
+	// nil-dereference finding sets it)
+	AllowNil bool
 }
 
 func (p *Plan) qualifier() types.Qualifier {
@@ -372,7 +375,7 @@ func emitMethod(sb *strings.Builder, prog *Prog, dm *DriverMethod, retVars [][]s
 	if post != nil {
 		postSite = post.site
 	}
-	fmt.Fprintf(sb, "func init() {\n\trtCases = append(rtCases, rtCase{Name: %q, HasErr: %v, NoNil: %v, Skip: %q,\n\tRun: func(x *rtRun) {\n", m.Name, m.RetErr, dm.NilRisk(), skip)
+	fmt.Fprintf(sb, "func init() {\n\trtCases = append(rtCases, rtCase{Name: %q, HasErr: %v, NoNil: %v, Skip: %q,\n\tRun: func(x *rtRun) {\n", m.Name, m.RetErr, dm.NilRisk() && !dm.AllowNil, skip)
 	sb.WriteString(setup("\t\t"))
 	sb.WriteString("\t\tvar gotErr, wantErr error\n\t\tx.Begin()\n\t\tfunc() {\n\t\t\tdefer x.Recover()\n\t\t\t" + call + "\t\t}()\n\t\tx.EndGot()\n")
 	sb.WriteString("\t\tif x.Panic != \"\" {\n\t\t\tx.issue(\"panic\", \"\", \"generated function panics: %s\", x.Panic)\n\t\t\treturn\n\t\t}\n")
